@@ -365,7 +365,12 @@ func (q *queryStmtParser) visitExprAtom(ctx *grammar.ExprAtomContext) {
 			valStr = ctx.IntNumber().GetText()
 		}
 
-		val, _ := strconv.ParseFloat(valStr, 64)
+		val, err := strconv.ParseFloat(valStr, 64)
+		if err != nil {
+			// out of float64 range: ParseFloat returns ±Inf, which cannot be sent to the leaf nodes
+			q.err = err
+			return
+		}
 		if !q.exprStack.Empty() {
 			q.setExprParam(&stmt.NumberLiteral{Val: val})
 		}
